@@ -4,7 +4,7 @@ namespace GL
 
 attribute [local irreducible] L.emit L.errorf emitIfPending L.next L.backup L.peek L.skip L.acceptRun
   L.acceptUntil L.skipRun L.skipUntil L.skipAhead L.peekAhead L.continueToMatchingBrace
-  L.continueToMatchingQuote L.ignore L.dropS L.validateIndent gohtStartLoop
+  L.continueToMatchingQuote L.ignore L.dropS L.validateIndent gohtStartLoop gohtStartSig
 
 /-- closes `X.out.length ≤ l.out.length + k` goals after unfolding a state function -/
 macro "out_bound" : tactic => `(tactic| (
@@ -123,31 +123,26 @@ theorem ignoreIndentedLines_out (n : Nat) (l : L) : (ignoreIndentedLines n l).1.
           simp only [peekAhead_out, peek_out]; omega
         · out_bound
     · out_bound
-theorem lexGohtStart_out (l : L) : (lexGohtStart l).1.out.length ≤ l.out.length + 1 := by
-  unfold lexGohtStart; simp only []
+theorem gohtStartSig_out (l : L) : (sumL (gohtStartSig l)).out = l.out := by
+  unfold gohtStartSig
+  simp only []
   split
-  · rename_i l' h
-    have : l'.out = l.out := by
-      split at h
-      · have := gohtStartLoop_out ((l.ignore.skipRun Gen.lexGohtStart_skipRun0).acceptUntil Gen.lexGohtStart_acceptUntil0).cur.rest.length.succ.succ
-          (((l.ignore.skipRun Gen.lexGohtStart_skipRun0).acceptUntil Gen.lexGohtStart_acceptUntil0).next).1
-        simp only [Nat.succ_eq_add_one] at this
-        rw [h] at this; simpa [sumL] using this
-      · cases h
+  · rw [gohtStartLoop_out]; simp
+  · simp [sumL]
+theorem lexGohtStart_out (l : L) : (lexGohtStart l).1.out.length ≤ l.out.length + 1 := by
+  unfold lexGohtStart
+  have h := gohtStartSig_out l
+  split
+  · rename_i l' heq
+    rw [heq] at h; simp only [sumL] at h
     refine Nat.le_trans (errorf_out_le _ _) ?_
-    rw [this]; omega
-  · rename_i l' h
-    have : l'.out = l.out := by
-      split at h
-      · have := gohtStartLoop_out ((l.ignore.skipRun Gen.lexGohtStart_skipRun0).acceptUntil Gen.lexGohtStart_acceptUntil0).cur.rest.length.succ.succ
-          (((l.ignore.skipRun Gen.lexGohtStart_skipRun0).acceptUntil Gen.lexGohtStart_acceptUntil0).next).1
-        simp only [Nat.succ_eq_add_one] at this
-        rw [h] at this; simpa [sumL] using this
-      · cases h; simp
+    rw [h]; omega
+  · rename_i l' heq
+    rw [heq] at h; simp only [sumL] at h
     simp only [skipRun_out]
     refine Nat.le_trans (emit_out_le _ _) ?_
     simp only [next_out]
-    rw [this]; omega
+    rw [h]; omega
 theorem lexGohtAttributeName_out (l : L) : (lexGohtAttributeName l).1.out.length ≤ l.out.length + 2 := by
   unfold lexGohtAttributeName; simp only []
   split
